@@ -167,6 +167,32 @@ fn iter_faults<E: Elem>(g: &mut Grid, thorough: bool) {
     }
 }
 
+/// the same faults far beyond the small lengths (2^k - 1, 2^k, 2^k + 1): a length-dependent path
+/// (staging buffer, bulk copy) would start somewhere like this
+fn iter_faults_big<E: Elem>(g: &mut Grid, thorough: bool) {
+    let lens: &[usize] = if thorough { &[63, 64, 65, 127, 128, 129, 255, 256, 257, 1023, 1024, 1025, 4095, 4096, 4097] } else { &[127, 128, 129, 1023, 1024, 1025] };
+    for which in ["from_header_and_iter", "ThinArc::from_header_and_iter", "Arc<[T]>::from_iter", "UniqueArc<[T]>::from_iter"] {
+        let regimes: &[Regime] = if which.contains("from_iter") { &[Regime::Exact, Regime::LowerLtUpper, Regime::UnknownUpper] } else { &[Regime::Exact] };
+        for &r in regimes {
+            for &n in lens {
+                let calls = iter_case::<E>(g, which, r, n, &[n], 0);
+                for k in [1, 2, n / 2, n - 1, n, n + 1, calls - 1, calls, calls + 1] {
+                    if k >= 1 && k <= calls + 1 {
+                        iter_case::<E>(g, which, r, n, &[n], k);
+                    }
+                }
+                for actual in [n - 2, n - 1, n + 1, n + 2] {
+                    iter_case::<E>(g, which, r, actual, &[n], 0);
+                }
+                // the answer changes between calls
+                for script in [[n, n - 1, n], [n - 1, n, n], [n, n + 1, n + 1], [n + 1, n, n - 1]] {
+                    iter_case::<E>(g, which, r, n, &script, 0);
+                }
+            }
+        }
+    }
+}
+
 // ---------------------------------------------------------------- Clone panics
 macro_rules! clone_faults_for {
     ($fname:ident, $P:ty, $pname:expr) => {
@@ -756,6 +782,8 @@ pub fn run(tier: &str) -> Vec<Grid> {
     iter_faults::<ET>(&mut a, thorough);
     iter_faults::<EB>(&mut a, thorough);
     iter_faults::<E2>(&mut a, thorough);
+    iter_faults_big::<ET>(&mut a, thorough);
+    iter_faults_big::<E2>(&mut a, thorough);
     let mut b = Grid::new("c07.clone", "make_mut / make_unique / unwrap_or_clone / OffsetArc::make_mut x co-owner kind x armed Clone panic (k = 1, 2)");
     clone_faults(&mut b);
     clone_faults_big(&mut b);
@@ -771,7 +799,7 @@ pub fn run(tier: &str) -> Vec<Grid> {
     crate::c07r::reentrant_faults(&mut re);
     crate::c07r::replace_drop_panic(&mut re);
     #[allow(unused_mut)]
-    let mut all = vec![a, b, c, d, dp, re, e];
+    let mut all = vec![a, b, c, d, dp, re, e, crate::c06::unwinding_grid()];
     // the serde impls run user code too: panicking serializer / deserializer callbacks
     #[cfg(feature = "cfg_default")]
     all.push(crate::c17::panic_grid());
